@@ -118,3 +118,10 @@ add("C18",
     "Trusted: CrossHair/z3 (index enumeration; strings concrete per path); id generator stub that never repeats; in-memory dict database.",
     "DESIGN.md 3/C18")
 NOT_APPLICABLE.pop("C18", None)
+
+add("C03",
+    "CrossHair-driven exploration of SecurityContext._check_signature with a real MetadataStore (certs / extract_certs) over symbolic key-descriptor uses, claimed issuer, actual signing certificate, embedded certificate and only_use_keys_in_metadata",
+    "For every assignment of key uses in a two-entity federation, claimed Issuer (own, other entity, unknown, absent, padded), actual signing key (any metadata certificate or an embedded-only one), embedded KeyInfo certificate and flag value: the signature is accepted iff the signing certificate is a signing/unspecified-use certificate of the claimed issuer, or (flag off and the issuer has none) equals the embedded one; no other certificate is even tried; MissingKey when the flag is on and metadata has no key.",
+    "Trusted: CrossHair/z3 (index enumeration); xmlsec1 by contract (verifies iff handed the signer's certificate); object-level metadata; fake temp files.",
+    "DESIGN.md 3/C03")
+NOT_APPLICABLE.pop("C03", None)
